@@ -120,6 +120,7 @@ def run_task(source, contracts, loops, qualname, natives=None, timeout_ms=10000,
         res.variants = len(starts)
         for (st, args, kwargs, env) in starts:
             if contract is not None:
+                contract.bind_lets(ex, st, env)
                 ev = SpecEval(ex, st, env)
                 for label, src in contract.requires.items():
                     assume_spec(ex, st, ev.ev(src), f"requires:{label}")
